@@ -268,9 +268,41 @@ theorem applyFailed_prov {cfg : Config} {ifs : List Iface} {s : MState} (h : Pro
   · exact prov_of_same (dropCands_prov h) rfl rfl rfl rfl rfl rfl
   · exact h
 
+theorem acceptGather_prov {cfg : Config} {ifs : List Iface} {s : MState} (h : Prov cfg ifs s) :
+    Prov cfg ifs (acceptGather s).1 := by
+  simp only [acceptGather]
+  split
+  · exact prov_of_same h rfl rfl rfl rfl rfl rfl
+  · exact h
+  · exact h
+
+theorem startCycle_prov {cfg : Config} {ifs : List Iface} {s : MState} (h : Prov cfg ifs s) (cg : Option (Nat × Nat)) :
+    Prov cfg ifs (startCycle s cg) := by
+  simp only [startCycle]
+  split
+  · exact h
+  · split
+    · exact prov_of_same h rfl rfl rfl rfl rfl rfl
+    · refine finishCycle_prov (runCycleUnits_prov ?_ _ _)
+      exact prov_of_same h rfl rfl rfl rfl rfl rfl
+
+theorem restartOp_prov {cfg : Config} {ifs : List Iface} {s : MState} (h : Prov cfg ifs s) :
+    Prov cfg ifs (restartOp s).1 := by
+  simp only [restartOp]
+  split
+  · refine resume_prov (dropCands_prov ?_) _
+    exact prov_of_same h rfl rfl rfl rfl rfl rfl
+  · exact h
+
 theorem step_prov {cfg : Config} {ifs : List Iface} {s : MState} (h : Prov cfg ifs s) (op : Op) :
     Prov cfg ifs (step s op).1 := by
   cases op with
+  | gather2 =>
+    simp only [step]
+    exact startCycle_prov (startCycle_prov (acceptGather_prov (acceptGather_prov h)) _) _
+  | grg =>
+    simp only [step]
+    exact startCycle_prov (startCycle_prov (acceptGather_prov (restartOp_prov (acceptGather_prov h))) _) _
   | gather =>
     simp only [step]
     split
